@@ -25,7 +25,12 @@ def _normal_cases(draw):
                 sc=draw(st.sampled_from(["pos", "neg"])), r=draw(RATE), r2=draw(RATE),
                 z=draw(st.floats(min_value=-4, max_value=4)),
                 rates=sorted(draw(st.lists(st.floats(min_value=1e-3, max_value=1 - 1e-3), min_size=1, max_size=4))),
-                fm=[draw(MOD_RATE), draw(MOD_RATE), draw(st.integers(1, 10**4)), draw(st.integers(1, 10**4))],
+                fm=draw(st.one_of(
+                    st.tuples(MOD_RATE, MOD_RATE, st.integers(1, 10**4), st.integers(1, 10**4)).map(list),
+                    # rates written as decimals with supports that are whole multiples of them
+                    st.tuples(st.sampled_from([0.1, 0.2, 0.4, 0.05, 0.01, 0.15, 0.35, 0.3, 0.7, 0.25]),
+                              st.sampled_from([0.1, 0.4, 0.05, 0.02, 0.6, 0.125]), st.integers(1, 50), st.integers(1, 50))
+                    .map(lambda t: [t[0], t[1], max(1, round(t[2] * 20 * t[0])), max(1, round(t[3] * 40 * t[1]))]))),
                 n=draw(st.integers(1, 3000)), p_pos=draw(st.sampled_from([0.5, 0.0, 1.0, 0.3, 0.97])),
                 seed=draw(st.integers(0, 2**31 - 1)),
                 # a model whose scores sit far from zero relative to their spread
@@ -44,6 +49,13 @@ def _okint(v: int, q: F) -> bool:
     """v is the largest integer not exceeding q 'to floating-point accuracy': the exact floor, or
     an integer within the rounding error of one float multiplication/division of size q."""
     return v == math.floor(q) or abs(F(v) - q) <= max(F(1, 10**13), abs(q) * F(4, 10**16))
+
+
+def _size_ok(v: int, q: F) -> bool:
+    """A class size 'implied' by support / rate: the largest integer not exceeding the quotient as a
+    double (q is the exact quotient of the two binary floats, float(q) its correctly rounded double):
+    40 / 0.4 is 100 although the double 0.4 lies slightly above 4/10, 1 / 1e-05 is 99999.99999999999."""
+    return v == int(float(q))
 
 
 def check_normal(case):
@@ -136,8 +148,8 @@ def check_normal(case):
     require(_isclose(m.fnr(0.0), fnr, 1e-9) and _isclose(m.fpr(0.0), fpr, 1e-9), "ds:from-metrics-rates",
             f"from_metrics({fnr!r},{fpr!r},..): fnr(0)={m.fnr(0.0)!r} fpr(0)={m.fpr(0.0)!r}")
     nb_pos = round(m.p_pos * m.n)
-    require(abs(m.p_pos * m.n - nb_pos) <= 1e-6 and _okint(nb_pos, F(s1) / F(fnr))
-            and _okint(m.n - nb_pos, F(s2) / F(fpr)), "ds:from-metrics-sizes",
+    require(abs(m.p_pos * m.n - nb_pos) <= 1e-6 and _size_ok(nb_pos, F(s1) / F(fnr))
+            and _size_ok(m.n - nb_pos, F(s2) / F(fpr)), "ds:from-metrics-sizes",
             f"from_metrics({fnr!r},{fpr!r},{s1},{s2}): n={m.n} p_pos={m.p_pos!r} -> positives {nb_pos}, negatives "
             f"{m.n - nb_pos}; expected floor({s1}/{fnr!r}) = {math.floor(F(s1) / F(fnr))}, floor({s2}/{fpr!r}) = "
             f"{math.floor(F(s2) / F(fpr))}")
@@ -210,6 +222,10 @@ def check_bernoulli(case):
     a = c_ + rho * math.sqrt(p1 * p2 * c_)
     pr = [a, 1 - p2 - a, 1 - p1 - a, p1 + p2 + a - 1]
     valid = None if abs(min(pr)) <= 1e-12 else (min(pr) > 0)
+    if p1 in (0.0, 1.0) or p2 in (0.0, 1.0):
+        # a constant marginal: the correlation term vanishes exactly, the joint is the product
+        # distribution (cells 0, 0, 1-p, p) whatever rho is - a valid distribution
+        valid = True
     for random in (False, True):
         ctx = f"CorrelatedBernoullilDataset({p1!r},{p2!r},{rho!r}).sample({n}, random={random})"
         try:
